@@ -721,6 +721,8 @@ class SelectiveAttackActor(AttackActorBaseComponent):
         # Return empty list if no attack is specified.
         if not np.any(attack):
             return False, []
+        # The action space also holds (nested) lists; the cells are indexed one by one below.
+        attack = np.asarray(attack)
 
         # Generate local grid and an attack mask.
         local_grid, mask = gu.create_grid_and_mask(
